@@ -78,6 +78,7 @@ Inductive xop :=
 | SwapFree | SelfMoveAssign (t : bool)
 | MoveInsertRange (t : bool) (pos : Z) (xs : list Z)
 | CtorN (t : bool) (n : Z) | CtorNVal (t : bool) (n x : Z) | CtorRange (t : bool) (xs : list Z)
+| CtorArr (t : bool) (xs : list Z)
 | CopyIndep (t : bool) (d : bool) (x : Z).
 
 Section XStep.
@@ -103,6 +104,10 @@ Definition xstep (s : vec * vec) (o : xop) : res ((vec * vec) * list Z) :=
   | CtorN t n => ctor t (ctor_n (sel t s) n)
   | CtorNVal t n x => ctor t (ctor_n_val (sel t s) n x)
   | CtorRange t xs => ctor t (ctor_range (sel t s) xs)
+  (* static_vector(c_array<T, Size>&&): move_insert(begin(), begin(source), end(source)); Size <= Capacity is a
+     requires-clause (a larger array does not compile; the model answers with move_insert's own precondition).
+     static_vector(empty_c_array) is the case xs = [] (it does nothing) *)
+  | CtorArr t xs => ctor t (move_insert (fresh (sel t s)) 0 xs)
   | CopyIndep t d x =>
       do c <- copy_construct (sel t s);
       if d then do c' <- mutate c x; Ok (s, sz c' :: elems c')
@@ -141,7 +146,7 @@ Definition touches_only (u : bool) (o : xop) : bool :=
       | Swap | CopyAssign _ | MoveAssign _ | Relations => false
       end
   | RIter t _ | CIter t | SetAt t _ _ | SetFront t _ | SetBack t _ | DataRead t | MaxSize t | SelfMoveAssign t
-  | MoveInsertRange t _ _ | CtorN t _ | CtorNVal t _ _ | CtorRange t _ | CopyIndep t _ _ => Bool.eqb t u
+  | MoveInsertRange t _ _ | CtorN t _ | CtorNVal t _ _ | CtorRange t _ | CtorArr t _ | CopyIndep t _ _ => Bool.eqb t u
   | SwapFree => false
   end.
 
